@@ -539,6 +539,13 @@ static ASMJIT_FAVOR_SIZE Error validate(InstDB::Mode mode, const BaseInst& inst,
             return make_error(Error::kInvalidOperandSize);
         }
 
+        // A memory operand that has a vector index is a VSIB operand (vm32x, vm64y, ...) - it's not a scalar memory
+        // operand and must only match signatures that describe a vector memory operand (gather, scatter, ...). Any
+        // other instruction would encode the vector index as if it was a general purpose register.
+        if (Support::test(op_flags, InstDB::OpFlags::kVmMask)) {
+          op_flags &= ~InstDB::OpFlags::kMemMask;
+        }
+
         break;
       }
 
